@@ -86,7 +86,7 @@ func workerMain(args []string) {
 	var startedNs, startBeatA atomic.Int64
 	cur.Store(-1)
 	go func() { // watchdog: wall clock only ever yields "inconclusive"
-		lastBeat, lastBeatAt := int64(-1), time.Now()
+		lastBeat, lastSteps, lastBeatAt := int64(-1), sut.StepsNow(), time.Now()
 		for {
 			time.Sleep(250 * time.Millisecond)
 			i := cur.Load()
@@ -97,10 +97,10 @@ func workerMain(args []string) {
 			el := time.Since(time.Unix(0, startedNs.Load()))
 			b := core.Beats.Load()
 			startBeat := startBeatA.Load()
-			if b != lastBeat {
-				lastBeat, lastBeatAt = b, time.Now()
+			if st := sut.StepsNow(); b != lastBeat || st != lastSteps {
+				lastBeat, lastSteps, lastBeatAt = b, st, time.Now()
 			}
-			// only a case that has begun beating can stall: an input started and never finished
+			// only a case that has begun beating can stall: an input started and neither it nor the VM step counter moved since
 			stalled := p.StallS > 0 && b > startBeat && time.Since(lastBeatAt) > time.Duration(p.StallS)*time.Second
 			var ms runtime.MemStats
 			if el > 2*time.Second {
